@@ -498,7 +498,11 @@ func (c1 intConst) unaryOp(op ast.OperatorType, typ reflect.Type) (constant, err
 			m = maxBigUnsigned(k)
 		}
 		i := new(big.Int).Set(c1.i)
-		return intConst{i: i.Xor(m, i)}, nil
+		c := intConst{i: i.Xor(m, i)}
+		if c.overflow() {
+			return intConst{}, errors.New("constant overflow")
+		}
+		return c, nil
 	}
 	return nil, errInvalidOperation
 }
@@ -517,7 +521,11 @@ func (c1 intConst) binaryOp(op ast.OperatorType, c2 constant) (constant, error) 
 			}
 			return c, nil
 		}
-		return intConst{i: i.Rsh(i, sc)}, nil
+		c := intConst{i: i.Rsh(i, sc)}
+		if c.overflow() {
+			return intConst{}, errors.New("constant shift overflow")
+		}
+		return c, nil
 	}
 	n1 := c1
 	n2, ok := c2.(intConst)
@@ -570,14 +578,22 @@ func (c1 intConst) binaryOp(op ast.OperatorType, c2 constant) (constant, error) 
 			return nil, errDivisionByZero
 		}
 		return intConst{i: new(big.Int).Rem(n1.i, n2.i)}, nil
-	case ast.OperatorBitAnd:
-		return intConst{i: new(big.Int).And(n1.i, n2.i)}, nil
-	case ast.OperatorBitOr:
-		return intConst{i: new(big.Int).Or(n1.i, n2.i)}, nil
-	case ast.OperatorXor:
-		return intConst{i: new(big.Int).Xor(n1.i, n2.i)}, nil
-	case ast.OperatorAndNot:
-		return intConst{i: new(big.Int).AndNot(n1.i, n2.i)}, nil
+	case ast.OperatorBitAnd, ast.OperatorBitOr, ast.OperatorXor, ast.OperatorAndNot:
+		c := intConst{i: new(big.Int)}
+		switch op {
+		case ast.OperatorBitAnd:
+			c.i.And(n1.i, n2.i)
+		case ast.OperatorBitOr:
+			c.i.Or(n1.i, n2.i)
+		case ast.OperatorXor:
+			c.i.Xor(n1.i, n2.i)
+		case ast.OperatorAndNot:
+			c.i.AndNot(n1.i, n2.i)
+		}
+		if c.overflow() {
+			return intConst{}, errors.New("constant overflow")
+		}
+		return c, nil
 	}
 	return nil, errInvalidOperation
 }
